@@ -272,6 +272,20 @@ func m1Limiter(idx int64, r *rand.Rand) {
 func m1Precise(idx int64, r *rand.Rand) {
 	initial := 1 + r.IntN(3)
 	st := strategy.NewPreciseStrategy(initial)
+	if r.IntN(2) == 0 {
+		// a user metric registry that yields inside the strategy's sample emission, i.e. while an admission decision is
+		// being taken: other calls pile up behind it
+		reg := inject.NewRecRegistry()
+		var n atomic.Int64
+		reg.OnSample = func(string, string) {
+			if n.Add(1)%2 == 0 {
+				for i := 0; i < 30; i++ {
+					runtime.Gosched()
+				}
+			}
+		}
+		st = strategy.NewPreciseStrategyWithMetricRegistry(initial, reg)
+	}
 	h := &lin.History{}
 	nG := 2 + r.IntN(7)
 	perG := 2 + r.IntN(9)
